@@ -212,7 +212,7 @@ func c08Gen(r *Rng, i int) *Sx {
 					wp = append(wp, K("msgexpiry", I(Pick(r, []int{60, 100, 7000}))))
 				}
 				if r.Chance(2, 3) {
-					delay = Pick(r, []int{0, 1, 1, 1, 1, 100})
+					delay = Pick(r, []int{0, 1, 1, 1, 100, 100})
 					wp = append(wp, K("willdelay", I(delay)))
 				}
 			}
@@ -327,9 +327,9 @@ func c08Gen(r *Rng, i int) *Sx {
 				props := []*Sx{}
 				if s.ver == 5 {
 					code = Pick(r, []int{0, 4, 4})
-					if r.Chance(1, 4) && s.ka == 0 && s.e > 0 {
+					if r.Chance(1, 2) && s.ka == 0 && s.e > 0 {
 						// (a non-zero Session Expiry Interval in DISCONNECT is a protocol error when the CONNECT one was 0)
-						v := Pick(r, []int{0, 1, 100})
+						v := Pick(r, []int{0, 1, 1, 100, 100})
 						props = append(props, K("sei", I(v)))
 						if v == 1 {
 							s.oneSec = true
